@@ -205,6 +205,37 @@ def run_rule(acc: Acc, engine, block, conclusions, tier: str, via_block: bool) -
             compare(acc, {**case0, "driver": "activate", "rule": wtext, "input": x}, observe(engine), exps, impl,
                     len(rows), leaks)
         acc.traces += 1
+    # --- driver 3: every activation method, one selected rule: the term carries the block's IMPLICATION operator ------
+    r1 = fl.Rule.create(text, engine)
+    block.rules = [r1]
+    engine.input_variables[0].value = fl.scalar(0.5)
+    methods = [fl.First(1, 0.0), fl.Last(1, 0.0), fl.Highest(1), fl.Lowest(1), fl.Threshold(">", 0.0), fl.Proportional(), fl.General()]
+    for method in methods:
+        block.activation = method
+        for ov in engine.output_variables:
+            ov.fuzzy.clear()
+        block.activate()
+        acc.transitions += 1
+        d1 = 1.0 if isinstance(method, fl.Proportional) else 0.5  # Proportional normalises the only degree to 1
+        acc.case((text, type(method).__name__), nontrivial=nontrivial)
+        compare(acc, {**case0, "driver": "activate-method", "method": type(method).__name__, "input": 0.5}, observe(engine),
+                [expected(conclusions, d1, True)], impl, 1, [expected_leak(conclusions, d1, True)])
+    # --- driver 4: a rule that was disabled while the block was loaded and is enabled afterwards contributes normally ----
+    late = fl.Rule.create(text)
+    late.enabled = False
+    block.rules = [late]
+    block.load_rules(engine)
+    for ov in engine.output_variables:
+        ov.fuzzy.clear()
+    block.activate()
+    compare(acc, {**case0, "driver": "late-enabled", "enabled": False, "input": 0.5}, observe(engine), [expected(conclusions, 0.5, False)], impl, 1)
+    late.enabled = True
+    for ov in engine.output_variables:
+        ov.fuzzy.clear()
+    block.activate()
+    acc.transitions += 2
+    compare(acc, {**case0, "driver": "late-enabled", "enabled": True, "input": 0.5}, observe(engine), [expected(conclusions, 0.5, True)], impl, 1,
+            [expected_leak(conclusions, 0.5, True)])
     block.rules = []
 
 
@@ -240,7 +271,8 @@ def summarize(tier: str, seed: int, merged: dict) -> dict:
             f"all consequents of 1..3 conclusions over {n} (variable, term, hedge-chain) triples "
             f"({len(chains(tier))} hedge chains of length <= 2 over 6 hedges; o3 disabled): {n}+{n}^2+{n}^3 rules, "
             f"each triggered with degrees {['0', '0.25', '0.5', '1', 'nan', 'inf', '-inf']}, a batch, and disabled; "
-            "1- and 2-conclusion rules also through RuleBlock.activate with/without `with 0.5` next to a second rule. "
+            "1- and 2-conclusion rules also through RuleBlock.activate with/without `with 0.5` next to a second rule, under each of the "
+            "7 activation methods (conjunction != implication), and loaded while disabled then enabled. "
             "states = (rule, degree) configurations executed, transitions = trigger/activate calls, traces = reference "
             "runs compared; non-trivial = >= 2 conclusions, at least one hedge, degree strictly inside (0,1) or a batch"
         ),
